@@ -84,7 +84,9 @@ func (r *refFS) mkdirAll(name string) bool {
 	return true
 }
 
-func (r *refFS) create(name string, excl bool, trunc bool) bool {
+func (r *refFS) create(name string, excl bool, trunc bool) bool { return r.createMode(name, excl, trunc, 0o644) }
+
+func (r *refFS) createMode(name string, excl bool, trunc bool, mode int64) bool {
 	if x := r.find(name); x != nil {
 		if x.dir || excl {
 			return false
@@ -97,7 +99,7 @@ func (r *refFS) create(name string, excl bool, trunc bool) bool {
 	if !r.parentOK(name) {
 		return false
 	}
-	r.add(name, false, 0o644)
+	r.add(name, false, mode)
 	return true
 }
 
@@ -309,7 +311,7 @@ func c02Step(v *verifFS, ref *refFS, tag string, light bool) bool {
 		if e == nil {
 			err = h.Close()
 		}
-		want = ref.create(canon, false, true)
+		want = ref.createMode(canon, false, true, 0o666) // (Create opens with permission bits 0666)
 	case 3:
 		excl := vm.Bool(tag + "excl")
 		flag := os.O_RDWR | os.O_CREATE
